@@ -256,12 +256,6 @@ func ruleL1(c *Ctx) {
 			})
 		}
 	}
-	type evKind int
-	const (
-		evNone evKind = iota
-		evSet
-		evClear
-	)
 	event := func(in ssa.Instruction) evKind {
 		ci, ok := in.(ssa.CallInstruction)
 		if !ok {
@@ -306,6 +300,71 @@ func ruleL1(c *Ctx) {
 			}
 			sites++
 			opv := call.Call.Args[1]
+			// opcode-forwarding helper: the opcode is (an element of) a parameter; the obligation
+			// is checked at the helper's call sites, where the opcodes are constants
+			if prm, variadic := forwardedParam(fn, opv); prm != nil {
+				idx := -1
+				for i, q := range fn.Params {
+					if q == prm {
+						idx = i
+					}
+				}
+				ncs := 0
+				for _, g := range cfuncs {
+					eachInstr(g, func(in2 ssa.Instruction) {
+						cs, ok := in2.(*ssa.Call)
+						if !ok || cs.Call.StaticCallee() != fn || idx < 0 {
+							return
+						}
+						ncs++
+						var seq []int64
+						resolved := true
+						if variadic {
+							elems := variadicElems(cs.Call.Args[idx])
+							for i := int64(0); i < int64(len(elems)); i++ {
+								if k, ok := constInt(elems[i]); ok {
+									seq = append(seq, k)
+								} else {
+									resolved = false
+								}
+							}
+						} else if k, ok := constInt(cs.Call.Args[idx]); ok {
+							seq = []int64{k}
+						} else {
+							resolved = false
+						}
+						var names []string
+						for _, o := range seq {
+							names = append(names, oi.names[o])
+						}
+						key := fmt.Sprintf("%s: %s(%s)", fnName(g), fn.Name(), strings.Join(names, ", "))
+						pos := c.P.Pos(cs.Pos())
+						if !resolved || len(seq) == 0 {
+							c.viol(key, pos, "opcodes passed to the emitting helper "+fn.Name()+" are not constants: fallibility cannot be established")
+							return
+						}
+						for i, o := range seq[1:] {
+							if oi.fallible[o] {
+								c.viol(key, pos, fmt.Sprintf("fallible opcode %s is emitted by %s after another instruction (#%d) consumed the position", oi.names[o], fn.Name(), i+2))
+								return
+							}
+						}
+						if !oi.fallible[seq[0]] {
+							c.trivial(key, pos, "only the first forwarded opcode could need a position and it cannot fail")
+							return
+						}
+						if why := unpositionedPath(c, cs, event); why == "" {
+							c.ok(key, pos, "the first forwarded opcode is positioned at the call; the rest cannot fail")
+						} else {
+							c.viol(key, pos, fmt.Sprintf("fallible instruction %s may be emitted without a source position (%s)", oi.names[seq[0]], why))
+						}
+					})
+				}
+				if ncs == 0 {
+					c.viol(fmt.Sprintf("%s: emit <forwarded>", fnName(fn)), c.P.Pos(call.Pos()), "emitting helper has no call sites with constant opcodes")
+				}
+				return
+			}
 			ops, computed := possibleOpcodes(fn, opv)
 			var names []string
 			fall := computed && len(ops) == 0
@@ -327,54 +386,7 @@ func ruleL1(c *Ctx) {
 				return
 			}
 			// backward search for an unpositioned feasible path
-			bad := ""
-			type st struct {
-				b *ssa.BasicBlock
-				k string
-			}
-			seen := map[st]bool{}
-			var search func(b *ssa.BasicBlock, idx int, facts factSet, depth int)
-			search = func(b *ssa.BasicBlock, idx int, facts factSet, depth int) {
-				if bad != "" {
-					return
-				}
-				for i := idx - 1; i >= 0; i-- {
-					switch event(b.Instrs[i]) {
-					case evSet:
-						return
-					case evClear:
-						bad = fmt.Sprintf("after %s at %s no setPos precedes this emission", calleeName(b.Instrs[i].(ssa.CallInstruction)), c.P.Pos(b.Instrs[i].Pos()))
-						return
-					}
-				}
-				if len(b.Preds) == 0 {
-					bad = "reachable from the function entry without any setPos"
-					return
-				}
-				for _, p := range b.Preds {
-					f2 := facts
-					if ifi, ok := p.Instrs[len(p.Instrs)-1].(*ssa.If); ok && p.Succs[0] != p.Succs[1] {
-						f2 = facts.clone()
-						if !f2.add(ifi.Cond, p.Succs[0] == b) {
-							continue // infeasible
-						}
-					}
-					s := st{p, f2.key()}
-					if seen[s] {
-						continue
-					}
-					seen[s] = true
-					search(p, len(p.Instrs), f2, depth+1)
-				}
-			}
-			idx := 0
-			for i, x := range call.Block().Instrs {
-				if x == ssa.Instruction(call) {
-					idx = i
-				}
-			}
-			// seed facts with what is known about the opcode operand itself is not needed here
-			search(call.Block(), idx, factSet{}, 0)
+			bad := unpositionedPath(c, call, event)
 			if bad == "" {
 				c.ok(key, pos, "every feasible path sets the position after the previous emission")
 				return
@@ -495,6 +507,31 @@ func ruleL2(c *Ctx) {
 		c.anchorFail("fcomp.generate or Funcode.decodeLNT not found")
 		return
 	}
+	// the delta-encoding loop may have been extracted from generate into a helper:
+	// use whichever function of the package contains the `a<<k | b<<j | ...` packing of uint16 entries
+	hasPacking := func(fd *ast.FuncDecl) bool {
+		found := false
+		ast.Inspect(fd.Body, func(n ast.Node) bool {
+			if as, ok := n.(*ast.AssignStmt); ok && len(as.Lhs) == 1 && len(as.Rhs) == 1 {
+				if b, ok := as.Rhs[0].(*ast.BinaryExpr); ok && b.Op == token.OR {
+					if t := pk.TypesInfo.TypeOf(as.Rhs[0]); t != nil && t.String() == "uint16" {
+						found = true
+					}
+				}
+			}
+			return true
+		})
+		return found
+	}
+	if !hasPacking(gen) {
+		for _, f := range pk.Syntax {
+			for _, d := range f.Decls {
+				if fd, ok := d.(*ast.FuncDecl); ok && fd.Body != nil && hasPacking(fd) {
+					gen = fd
+				}
+			}
+		}
+	}
 	info := pk.TypesInfo
 	// --- encoder ---
 	enc := map[string]*bitField{}
@@ -547,7 +584,8 @@ func ruleL2(c *Ctx) {
 			return true
 		}
 		// packing expression
-		if b, ok := as.Rhs[0].(*ast.BinaryExpr); ok && b.Op == token.OR && lhs.Name == "entry" {
+		if b, ok := as.Rhs[0].(*ast.BinaryExpr); ok && b.Op == token.OR && info.TypeOf(as.Rhs[0]) != nil && info.TypeOf(as.Rhs[0]).String() == "uint16" {
+			_ = lhs
 			var terms []ast.Expr
 			collectOr(b, &terms)
 			for _, t := range terms {
@@ -567,7 +605,7 @@ func ruleL2(c *Ctx) {
 		return true
 	})
 	if !found {
-		c.anchorFail("packing expression `entry := a | b | ...` not found in fcomp.generate")
+		c.anchorFail("no uint16 packing expression `a<<k | b<<j | ...` found in package compile")
 		return
 	}
 	// clip bounds and pc saturation
@@ -985,4 +1023,82 @@ func ruleL6(c *Ctx) {
 	if n < 5 {
 		c.anchorFail("only %d calls of starlark.Call found", n)
 	}
+}
+
+type evKind int
+
+const (
+	evNone evKind = iota
+	evSet
+	evClear
+)
+
+// unpositionedPath searches backwards from the emitting call for a feasible
+// path on which no setPos follows the last position-clearing event; it
+// returns a description of such a path, or "".
+func unpositionedPath(c *Ctx, call *ssa.Call, event func(ssa.Instruction) evKind) string {
+	bad := ""
+	type st struct {
+		b *ssa.BasicBlock
+		k string
+	}
+	seen := map[st]bool{}
+	var search func(b *ssa.BasicBlock, idx int, facts factSet)
+	search = func(b *ssa.BasicBlock, idx int, facts factSet) {
+		if bad != "" {
+			return
+		}
+		for i := idx - 1; i >= 0; i-- {
+			switch event(b.Instrs[i]) {
+			case evSet:
+				return
+			case evClear:
+				bad = fmt.Sprintf("after %s at %s no setPos precedes this emission", calleeName(b.Instrs[i].(ssa.CallInstruction)), c.P.Pos(b.Instrs[i].Pos()))
+				return
+			}
+		}
+		if len(b.Preds) == 0 {
+			bad = "reachable from the function entry without any setPos"
+			return
+		}
+		for _, p := range b.Preds {
+			f2 := facts
+			if ifi, ok := p.Instrs[len(p.Instrs)-1].(*ssa.If); ok && p.Succs[0] != p.Succs[1] {
+				f2 = facts.clone()
+				if !f2.add(ifi.Cond, p.Succs[0] == b) {
+					continue // infeasible
+				}
+			}
+			s := st{p, f2.key()}
+			if seen[s] {
+				continue
+			}
+			seen[s] = true
+			search(p, len(p.Instrs), f2)
+		}
+	}
+	idx := 0
+	for i, x := range call.Block().Instrs {
+		if x == ssa.Instruction(call) {
+			idx = i
+		}
+	}
+	search(call.Block(), idx, factSet{})
+	return bad
+}
+
+// forwardedParam: is the opcode operand a parameter of fn, or an element of a
+// variadic []Opcode parameter?
+func forwardedParam(fn *ssa.Function, opv ssa.Value) (*ssa.Parameter, bool) {
+	if !fn.Signature.Variadic() {
+		return nil, false
+	}
+	if ld, ok := opv.(*ssa.UnOp); ok && ld.Op == token.MUL {
+		if ia, ok := ld.X.(*ssa.IndexAddr); ok {
+			if p, ok := ia.X.(*ssa.Parameter); ok && p == fn.Params[len(fn.Params)-1] {
+				return p, true
+			}
+		}
+	}
+	return nil, false
 }
